@@ -226,7 +226,7 @@ func main() {
 		"Every outcome (value / user error / crash) is compared with the encoder-based oracle in Go and with the Coq model via vm_compute. " +
 		"non-trivial = either decoder returns a value, or crashes, or the input is a mutation of a canonical encoding; distinct = distinct input bytes"
 
-	// ---- stage 0: corpus and the known-defect witnesses (always run, so KNOWN-FINDING lines are deterministic)
+	// ---- stage 0: corpus and the witnesses of the defects repaired in commit 8b09734 (always run)
 	for _, w := range corpusInputs() {
 		h.one(w, "corpus", true)
 	}
@@ -285,8 +285,8 @@ func main() {
 	h.sum.Write(*dir)
 }
 
-// corpusInputs: hand-picked inputs (hex, one per line) from /verif/corpus/C46/*.txt located relative to the
-// harness binary's working tree, plus the built-in witnesses of the known defect classes.
+// corpusInputs: hand-picked inputs (hex, one per line) from /verif/corpus/C46/*.txt, plus the built-in
+// witnesses of the four defect classes repaired in onflow/cadence commit 8b09734.
 func corpusInputs() [][]byte {
 	ff := func(n int) []byte {
 		out := make([]byte, n)
